@@ -56,11 +56,24 @@ class TakeLast(Blockwise):
 
     @staticmethod
     def operation(a, skipna=True):
+        if a.empty:
+            # an empty partition contributes nothing to later partitions
+            return None
         if skipna:
-            if a.ndim == 1 and (a.empty or a.isna().all()):
+            if a.ndim == 1 and a.isna().all():
                 return None
             a = a.ffill()
         return a.tail(n=1).squeeze()
+
+
+def _cum_aggregate(aggregator, x, y):
+    # ``None`` stands for "nothing accumulated so far" (empty or all-missing
+    # partitions); not every aggregator accepts it on both sides
+    if y is None:
+        return x
+    if x is None:
+        return y
+    return aggregator(x, y)
 
 
 class CumulativeFinalize(Expr):
@@ -85,12 +98,13 @@ class CumulativeFinalize(Expr):
             else:
                 # aggregate with previous cumulation results
                 dsk[(intermediate_name, i)] = (
-                    methods._cum_aggregate_apply,
+                    _cum_aggregate,
                     self.aggregator,
                     (intermediate_name, i - 1),
                     (previous_partitions._name, i - 1),
                 )
             dsk[(self._name, i)] = (
+                _cum_aggregate,
                 self.aggregator,
                 (self.frame._name, i),
                 (intermediate_name, i),
